@@ -112,12 +112,31 @@ def render(c):
     return place_src(c["place"], wrap_src(c["wrap"], loop_src(c["loop"], c["finite"])))
 
 
+CARRY = {
+    # (first evaluation, later evaluation): the later one must return a number
+    "carry_regex_literal": ("var rx = /a+b/g; var n = 0; 1", "rx.test('xxaab') ? 1 : 0"),
+    "carry_regex_ctor": ("var rx = new RegExp('a+b'); 1", "rx.exec('xxaab') ? 1 : 0"),
+    "carry_regex_in_closure": ("var f = (function(){ var rx = /a+b/; return function(s){ return rx.test(s) ? 1 : 0 } })(); 1", "f('aab')"),
+    "carry_function": ("function work(k){ var t=0; for (var i=0;i<k;i++) t+=i; return t } 1", "work(50)"),
+    "carry_string_method_regex": ("var rx = /a+b/g; 1", "'xaabaab'.replace(rx, 'z').length"),
+}
+
+
 def driver(case, api):
-    src = render(case)
     T = float(case["t"])
     ctx = api.new_context(time_limit=T, memory_limit=(case["m"] or None))
-    # virtual clock: one tick per hooked step; the deadline passes after T ticks
-    out = api.run(lambda: ctx.eval(src), wall=120.0, cap=int(T) + 3_000_000, tick=1.0, deadline=T)
+    if case["loop"] in CARRY:
+        first, src = CARRY[case["loop"]]
+        pre = api.run(lambda: ctx.eval(first), wall=120.0, cap=3_000_000, tick=1.0, deadline=T)
+        api.vclock.now += 3 * T          # virtual time passes between the two evaluations
+        start = api.vclock.now
+        out = api.run(lambda: ctx.eval(src), wall=120.0, cap=int(T) + 3_000_000, tick=1.0, deadline=start + T, keep_clock=True)
+        if pre["o"] != "value":
+            out = {"o": "host", "type": "PreludeFailed", "where": pre["o"], "steps": 0}
+    else:
+        src = render(case)
+        # virtual clock: one tick per hooked step; the deadline passes after T ticks
+        out = api.run(lambda: ctx.eval(src), wall=120.0, cap=int(T) + 3_000_000, tick=1.0, deadline=T)
     late = dict(api.steps.late)
     res = {"id": case["id"], "finite": bool(case["finite"]), "o": out["o"], "steps": out["steps"], "t": case["t"],
            "lateV": late["main"] + late["cb"], "lateR": late["re"] + late["la"] + late["lb"],
